@@ -386,3 +386,275 @@ def extracted_strata():
     out = [big[k] for k in sorted(big)]
     _cache[key] = out
     return out
+
+
+# --------------------------------------------------------------------------- seeded query grammar over SCHEMA
+
+
+class _QG:
+    """Expression grammar over a set of visible table aliases (alias -> {column: type}). Everything is drawn from the
+    caller's PRNG, so a (seed) decides the query; the text ends up in the record."""
+
+    def __init__(self, rng, visible, outer=None):
+        self.r = rng
+        self.visible = visible
+        self.outer = outer or {}
+
+    def _cols(self, want=None, outer=False):
+        src = self.outer if outer else self.visible
+        out = []
+        for al in sorted(src):
+            for c, ty in src[al].items():
+                if want is None or ty == want:
+                    out.append("%s.%s" % (al, c))
+        return out
+
+    def col(self, want=None, outer=False):
+        cs = self._cols(want, outer) or self._cols(None, outer) or self._cols()
+        return self.r.choice(cs)
+
+    def num(self, d=0):
+        r = self.r
+        k = r.randrange(10 if d < 3 else 3)
+        if k == 0:
+            return str(r.choice([0, 1, 2, 3, 10, -1, 1.5]))
+        if k in (1, 2):
+            return self.col("INT")
+        if k == 3:
+            return "(%s %s %s)" % (self.num(d + 1), r.choice("+-*/%"), self.num(d + 1))
+        if k == 4:
+            return "%s %s %s" % (self.num(d + 1), r.choice("+-*"), self.num(d + 1))
+        if k == 5:
+            return "COALESCE(%s, %s)" % (self.num(d + 1), r.choice(["0", "NULL", self.col("INT")]))
+        if k == 6:
+            return "CASE WHEN %s THEN %s ELSE %s END" % (self.cond(d + 2), self.num(d + 1), self.num(d + 1))
+        if k == 7:
+            return "CAST(%s AS %s)" % (self.num(d + 1), r.choice(["INT", "BIGINT", "DOUBLE", "DECIMAL(18, 2)"]))
+        if k == 8:
+            return "-%s" % self.col("INT")
+        return "ABS(%s)" % self.num(d + 1)
+
+    def text(self, d=0):
+        r = self.r
+        k = r.randrange(5)
+        if k == 0:
+            return r.choice(["'a'", "'k'", "''", "'2020-01-01'"])
+        if k == 1:
+            return self.col("TEXT")
+        if k == 2:
+            return "CONCAT(%s, %s)" % (self.text(d + 1), r.choice(["'x'", self.col("TEXT")]))
+        if k == 3:
+            return "%s || %s" % (self.col("TEXT"), r.choice(["'y'", self.col("TEXT")]))
+        return "CAST(%s AS TEXT)" % self.num(d + 2)
+
+    def corr(self, inner_alias, inner_cols, d=0):
+        """A correlated predicate: inner column against an expression over one or more OUTER columns."""
+        r = self.r
+        ic = "%s.%s" % (inner_alias, r.choice(sorted(inner_cols)))
+        k = r.randrange(5)
+        if not self._cols(None, outer=True):
+            return "%s = 1" % ic
+        o1, o2 = self.col("INT", outer=True), self.col("INT", outer=True)
+        if k == 0:
+            return "%s = %s" % (ic, o1)
+        if k == 1:
+            return "%s = %s %s %s" % (ic, o1, r.choice("+-*"), o2)
+        if k == 2:
+            return "%s = %s AND %s.%s %s %s" % (ic, o1, inner_alias, r.choice(sorted(inner_cols)), r.choice(["<", ">", "=", "<>"]), o2)
+        if k == 3:
+            return "%s %s %s" % (ic, r.choice(["<", ">", "<>"]), o1)
+        return "%s = %s AND %s = %s" % (ic, o1, o1, o2)
+
+    def subq(self, kind, d=0):
+        r = self.r
+        t = r.choice(["x", "y", "z"])
+        al = "s%d" % r.randrange(3)
+        cols = SCHEMA[t]
+        inner = _QG(r, {al: cols}, outer={**self.outer, **self.visible})
+        w = inner.corr(al, [c for c, ty in cols.items() if ty == "INT"] or list(cols), d)
+        if r.random() < 0.3:
+            w += " AND %s" % _QG(r, {al: cols}).cond(d + 3)
+        ic = "%s.%s" % (al, r.choice([c for c, ty in cols.items() if ty == "INT"] or sorted(cols)))
+        if kind == "exists":
+            return "%sEXISTS (SELECT 1 FROM %s AS %s WHERE %s)" % (r.choice(["", "", "NOT "]), t, al, w)
+        if kind == "in":
+            return "%s %sIN (SELECT %s FROM %s AS %s WHERE %s)" % (self.col("INT"), r.choice(["", "", "NOT "]), ic, t, al, w)
+        if kind == "any":
+            return "%s %s %s (SELECT %s FROM %s AS %s WHERE %s)" % (self.col("INT"), r.choice(["=", "<", ">"]), r.choice(["ANY", "ALL"]), ic, t, al, w)
+        return "(SELECT %s(%s) FROM %s AS %s WHERE %s)" % (r.choice(["MAX", "MIN", "SUM", "COUNT"]), ic, t, al, w)
+
+    def atom(self, alias=None):
+        r = self.r
+        g = _QG(r, {alias: self.visible[alias]}) if alias else self
+        k = r.randrange(4)
+        if k == 0:
+            return "%s %s %s" % (g.col("INT"), r.choice(["=", "<>", "<", ">"]), r.choice([0, 1, 2, 10]))
+        if k == 1:
+            return "%s %s %s" % (g.col("INT"), r.choice(["=", "<", ">"]), self.col("INT"))
+        if k == 2:
+            return "%s IS %sNULL" % (g.col(), r.choice(["", "NOT "]))
+        return "%s = %s" % (g.col("TEXT"), r.choice(["'a'", "'k'"]))
+
+    def dnf(self):
+        """OR of AND-blocks of simple comparisons. Usually one pivot table occurs in every block: only predicates on such
+        tables are candidates for being pushed down from a disjunction."""
+        r = self.r
+        pivot = r.choice(sorted(self.visible)) if r.random() < 0.7 else None
+        blocks = []
+        for _ in range(r.randrange(2, 4)):
+            atoms = [self.atom() for _ in range(r.randrange(0 if pivot else 1, 3))]
+            if pivot:
+                atoms.insert(r.randrange(len(atoms) + 1), self.atom(pivot))
+            blocks.append("(%s)" % " AND ".join(atoms))
+        return " OR ".join(blocks)
+
+    def cond(self, d=0):
+        r = self.r
+        k = r.randrange(20 if d < 4 else 6)
+        cmp_ = r.choice(["=", "<>", "<", "<=", ">", ">="])
+        if k in (0, 1):
+            return "%s %s %s" % (self.num(d + 1), cmp_, self.num(d + 1))
+        if k == 2:
+            return r.choice(["TRUE", "FALSE", "NULL", "1 = 1", "1 = 2"])
+        if k == 3:
+            return "%s %s %s" % (self.col("INT"), cmp_, r.choice([0, 1, 2, 10]))
+        if k == 4:
+            return "%s %s %s" % (self.text(d + 1), r.choice(["=", "<>", "LIKE"]), self.text(d + 1))
+        if k == 5:
+            return "%s IS %sNULL" % (self.col(), r.choice(["", "NOT "]))
+        if k == 6:
+            return "%s IN (%s)" % (self.col("INT"), ", ".join(self.num(d + 2) for _ in range(r.randrange(1, 4))))
+        if k in (7, 8, 9):
+            return "%s AND %s" % (self.cond(d + 1), self.cond(d + 1))
+        if k in (10, 11):
+            return "%s OR %s" % (self.cond(d + 1), self.cond(d + 1))
+        if k == 12:
+            # disjunctive normal form: blocks over different tables, the shape predicate pushdown looks for
+            if r.random() < 0.7:
+                return self.dnf()
+            blocks = ["(%s AND %s)" % (self.cond(d + 2), self.cond(d + 2)) for _ in range(r.randrange(2, 4))]
+            return " OR ".join(blocks)
+        if k == 13:
+            return "NOT (%s)" % self.cond(d + 1)
+        if k == 14:
+            return "(%s)" % self.cond(d + 1)
+        if k == 15:
+            return "%s %sBETWEEN %s AND %s" % (self.num(d + 1), r.choice(["", "NOT "]), self.num(d + 2), self.num(d + 2))
+        if k == 16:
+            c = self.cond(d + 1)
+            return r.choice(["%s AND %s", "%s OR %s", "(%s) AND NOT (%s)"]) % (c, c)
+        if k == 17:
+            return self.subq("exists", d)
+        if k == 18:
+            return self.subq(r.choice(["in", "in", "any"]), d)
+        return "%s %s %s" % (self.col("INT"), cmp_, self.subq("scalar", d))
+
+
+def gen_query(rng, depth=0, ctes=None):
+    """A random, qualifiable SELECT over SCHEMA: joins of every kind, derived tables and CTEs that themselves join,
+    correlated subqueries whose predicates mention several outer columns, DNF filters, grouping, windows, set operations."""
+    r = rng
+    base = ["x", "y", "z", "w", "mixed"]
+    ctes = dict(ctes or {})
+    with_sql = ""
+    if depth == 0 and r.random() < 0.3:
+        parts = []
+        for i in range(r.randrange(1, 3)):
+            name = "c%d" % i
+            body, cols = gen_query(r, depth + 2, ctes), None
+            parts.append("%s AS (%s)" % (name, body[0]))
+            ctes[name] = body[1]
+        with_sql = "WITH " + ", ".join(parts) + " "
+    visible = {}
+    froms = []
+    for i in range(r.choice([1, 1, 2, 2, 3]) if depth == 0 else r.choice([1, 1, 2])):
+        al = "t%d%d" % (depth, i)
+        u = r.random()
+        if ctes and u < 0.3:
+            name = r.choice(sorted(ctes))
+            visible[al] = ctes[name]
+            froms.append("%s AS %s" % (name, al))
+        elif depth < 2 and u < (0.5 if depth == 0 else 0.2):
+            sub, cols = gen_query(r, depth + 1, ctes)
+            visible[al] = cols
+            froms.append("(%s) AS %s" % (sub, al))
+        else:
+            t = r.choice(base[:3] if r.random() < 0.8 else base)
+            visible[al] = dict(SCHEMA[t])
+            froms.append("%s AS %s" % (t, al))
+    g = _QG(r, visible)
+    cd = 1 + 2 * depth + r.randrange(3)  # smaller predicates in nested queries
+    sel, out_cols = [], {}
+    if r.random() < 0.12:
+        al = r.choice(sorted(visible))
+        sel.append(r.choice(["*", "%s.*" % al]))
+        for a in (sorted(visible) if sel[-1] == "*" else [al]):
+            for c, ty in visible[a].items():
+                out_cols.setdefault(c, ty)
+    grouped = r.random() < 0.25
+    gcols = [g.col() for _ in range(r.randrange(1, 3))] if grouped else []
+    for i in range(r.randrange(1, 4)):
+        name = "k%d" % i
+        if grouped:
+            if r.random() < 0.5:
+                e, ty = r.choice(gcols), "INT"
+            else:
+                e, ty = "%s(%s)" % (r.choice(["SUM", "MAX", "COUNT", "MIN"]), g.col("INT")), "INT"
+        else:
+            u = r.randrange(10)
+            if u < 5:
+                e, ty = g.col("INT"), "INT"
+            elif u == 5:
+                e, ty = g.num(2), "INT"
+            elif u == 6:
+                e, ty = g.text(2), "TEXT"
+            elif u == 7:
+                e, ty = g.subq("scalar", 3), "INT"
+            elif u == 8:
+                fn = r.choice(["SUM", "MAX", "ROW_NUMBER"])
+                e, ty = "%s(%s) OVER (PARTITION BY %s ORDER BY %s)" % (fn, "" if fn == "ROW_NUMBER" else g.col("INT"), g.col(), g.col()), "INT"
+            else:
+                e, ty = g.cond(4), "BOOLEAN"
+        sel.append("%s AS %s" % (e, name))
+        out_cols[name] = ty
+    sql = "SELECT " + ("DISTINCT " if r.random() < 0.1 else "") + ", ".join(sel) + " FROM " + froms[0]
+    seen = {}
+    first_al = froms[0].rsplit(" AS ", 1)[1]
+    seen[first_al] = visible[first_al]
+    for f in froms[1:]:
+        al = f.rsplit(" AS ", 1)[1]
+        jt = r.choice(["JOIN", "JOIN", "LEFT JOIN", "LEFT JOIN", "INNER JOIN", "RIGHT JOIN", "FULL JOIN", "CROSS JOIN", ","])
+        if jt == ",":
+            sql += ", " + f
+        elif jt == "CROSS JOIN":
+            sql += " CROSS JOIN " + f
+        else:
+            # an equi-join between this alias and an earlier one, sometimes with a residual predicate
+            mine = _QG(r, {al: visible[al]})
+            prev = _QG(r, dict(seen))
+            on = "%s = %s" % (mine.col("INT"), prev.col("INT"))
+            if r.random() < 0.3:
+                on += " AND " + _QG(r, {**seen, al: visible[al]}).cond(4)
+            sql += " %s %s ON %s" % (jt, f, on)
+        seen[al] = visible[al]
+    u = r.random()
+    if u < (0.25 if len(froms) > 1 else 0.1):
+        sql += " WHERE " + g.dnf()
+    elif u < 0.8:
+        sql += " WHERE " + g.cond(cd)
+    if grouped:
+        sql += " GROUP BY " + ", ".join(gcols)
+        if r.random() < 0.4:
+            sql += " HAVING %s(%s) > %d" % (r.choice(["SUM", "COUNT", "MAX"]), g.col("INT"), r.randrange(3))
+    if r.random() < 0.25:
+        sql += " ORDER BY " + r.choice(["1", sorted(out_cols)[0]] if not sel[0].endswith("*") else [g.col()]) + r.choice(["", " DESC"])
+    if r.random() < 0.15:
+        sql += " LIMIT %d" % r.randrange(1, 20)
+    if depth <= 1 and r.random() < 0.1 and not sel[0].endswith("*"):
+        # set operations need equal arity
+        sql = "%s %s SELECT %s FROM x AS u" % (sql, r.choice(["UNION", "UNION ALL", "INTERSECT", "EXCEPT"]), ", ".join(["u.a"] * len(sel)))
+    return with_sql + sql, out_cols
+
+
+def gen_schema_query(rng):
+    return gen_query(rng)[0]
